@@ -23,6 +23,13 @@ plus the property's own predicate on the real-code result):
              an FA, a BA); oracle = the rule as CCG states it (`stated_rule`) and images computed
              by the harness (`bty_image`), neither read off the library
 
+The words of eager / brute and the productions of cfg are given as every class of box the
+front-ends accept (pregroup.Word, cfg.Word, rigid.Box, monoidal.Box, user subclasses with an
+attribute of their own), with and without `data` (also falsy: 0, [], {}, False) and `_dagger`; the
+model's boxes carry both, and the oracle demands that the boxes of the result ARE the given ones
+(`given_word_failure`: same object, or equal both ways with equal name / dom / cod / data / dagger
+flag / subclass attribute).
+
 Every call on the real code is made through `attempt` / try-except: a library exception becomes a
 failure WITH the input (never an escape that the runner can only report without one).
 
@@ -1195,7 +1202,10 @@ def run(tier, seed, replay=None):
         "eager/brute: word sequences built backwards from a reduction of the target (insert "
         "adjacent adjoint pairs, cut into words), 30%% perturbed, plus s-sentences and unit-sentences "
         "requested with the explicit empty target Ty() (eager_parse and brute_force; codomain is "
-        "checked against the REQUESTED target); non-trivial = a parse with >= 2 "
+        "checked against the REQUESTED target); words / vocabulary / productions given as pregroup.Word, "
+        "cfg.Word, rigid.Box, monoidal.Box or user subclasses, with and without data and _dagger "
+        "(55-60%% of the cases redraw the classes; the result must consist of the given boxes, data "
+        "included); non-trivial = a parse with >= 2 "
         "cups. cfg: random grammars over 2-6 symbols, recorded shuffles; non-trivial = >= 1 "
         "sentence with >= 3 productions. b2r_*: slash types nested to depth <= %d with composite "
         "(and, in a ~10%% share, empty) left and right sides; non-trivial = some side of the rule "
